@@ -132,6 +132,7 @@ type stubOutput struct {
 	once         sync.Once
 	want         int
 	failSetRunId int
+	known        map[string]bool // replication ids the source reports (current, and previous after a failover)
 }
 
 func (o *stubOutput) StartPoint(ctx context.Context, ids []string) (syncer.StartPoint, error) {
@@ -157,8 +158,9 @@ func (o *stubOutput) SetRunId(ctx context.Context, id string) error {
 		o.failSetRunId--
 		return fmt.Errorf("dial tcp: connection refused (injected: target unreachable)")
 	}
-	if o.has && o.runID != id {
-		// RedisOutput.SetRunId -> UpdateCheckpoint re-labels the stored position (ids = [new, old])
+	if o.has && o.runID != id && o.known[o.runID] {
+		// RedisOutput.SetRunId -> UpdateCheckpoint(ids = [new, the id the output was created for]) re-labels a position stored under an
+		// id of THIS source; a position under an id the source never reported is not found by that lookup and stays as it is
 		o.runID = id
 	}
 	return nil
@@ -284,7 +286,10 @@ func run(c Case) (fs []failure, inconc string, facts map[string]bool, hist any) 
 		ch.StopWriter()
 	}
 	// the target's memory
-	out := &stubOutput{enough: make(chan struct{}), want: 16, failSetRunId: c.SetRunIdFails}
+	out := &stubOutput{enough: make(chan struct{}), want: 16, failSetRunId: c.SetRunIdFails, known: map[string]bool{cur.RunID(): true}}
+	if c.SrcKind == "failover" {
+		out.known[old.RunID()] = true
+	}
 	switch c.OutKind {
 	case "cur":
 		out.runID, out.offset, out.has = cur.RunID(), c.OutOff, true
